@@ -130,7 +130,7 @@ func c04Gen(seed uint64, idx int, maxFaults int) *c04Case {
 				c.MustReject = s
 			}
 		}
-		switch kind := r.Intn(13); kind {
+		switch kind := r.Intn(14); kind {
 		case 0:
 			ft.Kind = "lost-file"
 			gone[fi] = true
@@ -211,6 +211,37 @@ func c04Gen(seed uint64, idx int, maxFaults int) *c04Case {
 			nl := append([]idlgen.Line(nil), lines[fi][:li+1]...)
 			nl = append(nl, l)
 			lines[fi] = append(nl, lines[fi][li+1:]...)
+		case 13:
+			// a larger extent written twice: a whole definition (all records from its opening to its
+			// closing one) appears a second time -> duplicate global name
+			ft.Kind = "dup-block"
+			var opens []int
+			for li, l := range lines[fi] {
+				if l.Kind == "struct-open" || l.Kind == "enum-open" || l.Kind == "service-open" {
+					opens = append(opens, li)
+				}
+			}
+			if len(opens) == 0 {
+				continue
+			}
+			st := opens[r.Intn(len(opens))]
+			en := st
+			for en < len(lines[fi]) && lines[fi][en].Kind != "close" {
+				en++
+			}
+			if en >= len(lines[fi]) {
+				continue
+			}
+			blk := append([]idlgen.Line(nil), lines[fi][st:en+1]...)
+			ft.Line, ft.Note = st, lines[fi][st].Kind+": "+strings.TrimSpace(lines[fi][st].Text)
+			at := en + 1
+			if r.Chance(1, 2) {
+				at = len(lines[fi]) // at the end of the file
+			}
+			nl := append([]idlgen.Line(nil), lines[fi][:at]...)
+			nl = append(nl, blk...)
+			lines[fi] = append(nl, lines[fi][at:]...)
+			must("the whole definition `" + strings.TrimSpace(lines[fi][st].Text) + " ... }` appears twice: duplicate global name")
 		case 11:
 			ft.Kind = "include-rewrite"
 			var incs []int
@@ -452,7 +483,7 @@ func c04Check(a *artefacts, tier string, seed uint64, replay string) int {
 		for _, f := range c.Faults {
 			faults["storage."+f.Kind]++
 			rk := "-"
-			if i := strings.Index(f.Note, ":"); i > 0 && (f.Kind == "lost-record" || f.Kind == "dup-record") {
+			if i := strings.Index(f.Note, ":"); i > 0 && (f.Kind == "lost-record" || f.Kind == "dup-record" || f.Kind == "dup-block") {
 				rk = f.Note[:i]
 			}
 			cells[fmt.Sprintf("%s/%s/depth%d/%s", f.Kind, rk, c.Depth, c.Cfg.Backend)] = true
